@@ -810,6 +810,17 @@ def mon_toggle(ctx):
                 public_stats_safe(s, skip=('discard',))):
             V('toggle-before-exploration-end-changes-statistics', 'toggling before exploration has '
               'finished changed a public statistic')
+        # (c) the view a toggle produces depends on the stored samples only: in EITHER direction the
+        # per-shell statistics must be the ones recomputed from points/log_l/bounds for that view (a
+        # sampler that had discard on from run() has no earlier 'off' state to compare with, so the
+        # involution (b) alone cannot see an 'off' view that is wrong)
+        if s.explored:
+            try:
+                for v in check_estimators(s, prop=prop, where='@toggle'):
+                    V('view-' + ('on' if s._discard_exploration else 'off') + ':' + v['signature'],
+                      v['explanation'])
+            except Exception as e:
+                V('view-check-raises:' + type(e).__name__, str(e)[:200])
     return out
 
 
